@@ -248,6 +248,18 @@ pub fn run_case(case: &Case, full: bool) -> (Vec<(String, String)>, Info) {
             }
             break 'clean;
         }
+        let on_final_path = table.path(&final_tip.1).map(|p| p.iter().any(|b| b.hash == t.1)).unwrap_or(false);
+        if t != final_tip && !on_final_path && table.by_hash.contains_key(&t.1) && table.path(&t.1).map(|p| p.iter().all(|b| !invalid.contains(&b.hash))).unwrap_or(false) {
+            // finding F41: start-up replays the block directory in file (timestamp) order and fork
+            // choice depends on arrival order: a competing valid branch whose blocks sort earlier is
+            // adopted first and the chain the node was on may then fail to displace it (equal length,
+            // or longer but lighter in burn fee)
+            v.push((
+                "C12|clean_restart_tip_differs|competing_valid_branch_wins_by_file_order".into(),
+                format!("before shutdown the tip was {}/{}, after a clean restart it is {}/{}, the tip of a competing valid branch", final_tip.0, hx(&final_tip.1), t.0, hx(&t.1)),
+            ));
+            break 'clean;
+        }
         if t != final_tip {
             v.push(("C12|clean_restart_tip_differs".into(), format!("before shutdown the tip was {}/{}, after a clean restart it is {}/{}", final_tip.0, hx(&final_tip.1), t.0, hx(&t.1))));
             return (v, info);
